@@ -1,5 +1,5 @@
 (* One dispatcher for every view-based stream: build the view from its dump, then answer queries. *)
-From PG Require Import Lib.Io Model.View Model.Traversal Model.AlgoBasic Model.ShortestM Model.MstM Model.CondenseM Model.MatchM Model.FlowM.
+From PG Require Import Lib.Io Model.View Model.Traversal Model.AlgoBasic Model.ShortestM Model.MstM Model.CondenseM Model.MatchM Model.FlowM Model.CutM.
 
 Definition answer (debug : bool) (v : view) (o : line) : list line :=
   let code := fst o in
@@ -11,6 +11,7 @@ Definition answer (debug : bool) (v : view) (o : line) : list line :=
   else if Nat.ltb code 50 then [(2, [])]
   else if Nat.ltb code 52 then match_query debug v o
   else if Nat.eqb code 52 then flow_query v o
+  else if Nat.ltb code 55 then cut_query debug v o
   else [(2, [])].
 
 Fixpoint run (debug : bool) (v : view) (ops : list line) : list (list line) :=
